@@ -110,7 +110,7 @@ pub fn genuine_step(history: &[Version], idx: usize, list: usize, adv: i64) -> S
 pub enum Fault {
     NotifyStatus(u16), NotifyBadXml, NotifyCut, Force304, StaleEtag,
     NoValidators, Unconditional,
-    NewSession, SerialUp(u64), SerialDown,
+    NewSession, SerialUp(u64), SerialDown, SerialDownBy(u64),
     ForeignSnapshot, ForeignDelta(usize),
     DropOldest, DropNewest, DropMiddle(usize), Duplicate(usize), Shuffle,
     BogusDeltaHash(usize), SwapFiles(usize), Oversize, EmptyList, BumpEntrySerial(usize),
@@ -139,7 +139,8 @@ pub fn catalogue(step: &Step) -> Vec<Fault> {
     let mut res = vec![
         NotifyStatus(404), NotifyStatus(500), NotifyBadXml, NotifyCut, Force304,
         StaleEtag, NoValidators, Unconditional,
-        NewSession, SerialUp(1), SerialUp(3), SerialDown, ForeignSnapshot,
+        NewSession, SerialUp(1), SerialUp(3), SerialDown, SerialDownBy(2), SerialDownBy(3),
+        SerialDownBy(4), ForeignSnapshot,
         DropOldest, DropNewest, Shuffle, Oversize, EmptyList, BogusSnapshotHash,
     ];
     for i in 0..n {
@@ -240,6 +241,9 @@ pub fn apply_fault(
         SerialUp(k) => { step.notify.serial += k; true }
         SerialDown => {
             if step.notify.serial == 0 { false } else { step.notify.serial -= 1; true }
+        }
+        SerialDownBy(k) => {
+            if step.notify.serial < k { false } else { step.notify.serial -= k; true }
         }
         ForeignSnapshot => { step.notify.snapshot.foreign = true; true }
         ForeignDelta(i) => match step.notify.deltas.get_mut(i) {
@@ -420,7 +424,10 @@ pub fn gen_scenario(rng: &mut Rng, thorough: bool) -> Scenario {
     let mut steps: Vec<Step> = Vec::new();
     let mut pointer = 0usize;
     for s in 0..nsteps {
-        if s > 0 {
+        if s > 0 && pointer > 0 && rng.chance(1, 6) {
+            // The server (or a lagging cache node) goes backwards.
+            pointer -= rng.range(1, pointer.min(3) as u64) as usize;
+        } else if s > 0 {
             pointer = (pointer + [0, 1, 1, 1, 2, 3][rng.below(6) as usize]).min(history.len() - 1);
         } else if rng.chance(1, 4) {
             pointer = rng.below(history.len() as u64) as usize;
@@ -487,6 +494,85 @@ pub fn enumerate_single(rng: &mut Rng) -> Vec<Scenario> {
             max_delta_count: 3, max_delta_list_len: 6,
             history: history.clone(), steps: vec![s1, s2],
         });
+    }
+    res
+}
+
+/// The server goes backwards within the session: after synchronising to
+/// version 3 (serial 6) the genuine view of an older version is presented
+/// (one back, several back, below the oldest delta the client knows, the
+/// serial the client started from), with long, short and empty delta lists,
+/// with matching and with changed hashes for the serials the client
+/// remembers; also notifications that only lower the serial.
+pub fn enumerate_rollback(rng: &mut Rng) -> Vec<Scenario> {
+    let history = base_history();
+    let mut res = Vec::new();
+    for first_list in [5usize, 1] {
+        for back_to in [2usize, 1, 0] {
+            for list in [5usize, 2, 1, 0] {
+                for variant in 0..4 {
+                    let s1 = genuine_step(&history, 0, 5, 1);
+                    let s2 = genuine_step(&history, 3, first_list, 60);
+                    let mut s3 = genuine_step(&history, back_to, list, 60);
+                    let ok = match variant {
+                        0 => true,
+                        1 => apply_fault(&mut s3, &Fault::BogusDeltaHash(0), &history, Some(&s2), rng),
+                        2 => apply_fault(&mut s3, &Fault::FileStatus(0, 404), &history, Some(&s2), rng),
+                        _ => apply_fault(&mut s3, &Fault::StaleEtag, &history, Some(&s2), rng),
+                    };
+                    if !ok { continue }
+                    s3.faults.push(format!("Rollback{}", 3 - back_to));
+                    let s4 = genuine_step(&history, 4, 5, 60);
+                    res.push(Scenario {
+                        max_delta_count: 3, max_delta_list_len: 6,
+                        history: history.clone(), steps: vec![s1, s2, s3, s4],
+                    });
+                }
+            }
+        }
+    }
+    // Only the notification's serial goes down, the files are current.
+    for k in [1u64, 2, 3, 5] {
+        let s1 = genuine_step(&history, 0, 5, 1);
+        let s2 = genuine_step(&history, 3, 5, 60);
+        let mut s3 = genuine_step(&history, 3, 5, 60);
+        s3.notify.etag = Some(77);
+        if !apply_fault(&mut s3, &Fault::SerialDownBy(k), &history, Some(&s2), rng) { continue }
+        let s4 = genuine_step(&history, 4, 5, 60);
+        res.push(Scenario {
+            max_delta_count: 3, max_delta_list_len: 6,
+            history: history.clone(), steps: vec![s1, s2, s3, s4],
+        });
+    }
+    res
+}
+
+/// The server has not moved since the last update but presents a faulty
+/// view of the same version (equal serial with another session, changed
+/// snapshot or delta hashes for remembered serials, shortened lists, ...).
+pub fn enumerate_unchanged(rng: &mut Rng) -> Vec<Scenario> {
+    let history = base_history();
+    let mut res = Vec::new();
+    let clean = genuine_step(&history, 2, 5, 60);
+    for fault in catalogue(&clean) {
+        // With an equal serial no file is fetched unless the notification
+        // itself forces the snapshot path: file faults add nothing here.
+        if fault.label().starts_with("File") { continue }
+        for fresh_etag in [true, false] {
+            let s1 = genuine_step(&history, 0, 5, 1);
+            let s2 = genuine_step(&history, 2, 5, 60);
+            let mut s3 = clean.clone();
+            if fresh_etag { s3.notify.etag = Some(78); s3.notify.lm = s3.notify.lm.map(|t| t + 5); }
+            if !apply_fault(&mut s3, &fault, &history, Some(&s2), rng) { continue }
+            // File faults only matter if the file is fetched; keep those
+            // that can be reached from an up-to-date copy.
+            if !fresh_etag && !matches!(fault, Fault::Unconditional | Fault::NoValidators | Fault::Force304) { continue }
+            let s4 = genuine_step(&history, 4, 5, 60);
+            res.push(Scenario {
+                max_delta_count: 3, max_delta_list_len: 6,
+                history: history.clone(), steps: vec![s1, s2, s3, s4],
+            });
+        }
     }
     res
 }
